@@ -4,6 +4,7 @@ import (
 	"encoding/json"
 	"fmt"
 	"os"
+	"strings"
 	"time"
 
 	"verif/mc/common"
@@ -81,8 +82,11 @@ func clusterCheckSched(prop, tier string, plans []plan, need []string, assumptio
 			}
 			seen[key] = true
 			for _, a := range also {
-				if f.V.Property == a {
-					f.V.Signature = a + "/" + f.V.Signature
+				// "Cxx" adopts every violation of that property, "Cxx:prefix"
+				// only those whose signature starts with the prefix
+				ap, pre, _ := strings.Cut(a, ":")
+				if f.V.Property == ap && strings.HasPrefix(f.V.Signature, pre) {
+					f.V.Signature = ap + "/" + f.V.Signature
 					f.V.Property = prop
 				}
 			}
